@@ -313,7 +313,7 @@ Proof.
   destruct (th_cur (get_thr (b_thr s) t)) as [[o p]|]; [|discriminate].
   destruct R as [_ [_ [_ W]]]. pose proof (wp_nextop (blk o) p H K _ _ _ W) as N.
   destruct (nextop p) as [v| | | |op]; try discriminate. inversion PK; subst op.
-  exists H, K, o, p. split; [exact A|]. split; [reflexivity|exact (N BL)].
+  exists H, K, o, p. split; [exact A|]. split; [reflexivity|exact (proj1 N BL)].
 Qed.
 
 (* C01: the condition of every call is the rank discipline *)
@@ -329,7 +329,7 @@ Proof.
     destruct (th_cur (get_thr (b_thr s) t)) as [[o p]|]; [|discriminate].
     destruct R as [_ [_ [_ W]]]. pose proof (wp_nextop (blk o) p H K _ _ _ W) as N.
     destruct (nextop p) as [v| | | |op]; try discriminate. inversion PK; subst op.
-    destruct (BR _ _ _ (N BL)) as [_ RK]. destruct (agree_holds t (b_w s) H K l' A HH) as [x Hx]. apply (RK _ Hx).
+    destruct (BR _ _ _ (proj1 N BL)) as [_ RK]. destruct (agree_holds t (b_w s) H K l' A HH) as [x Hx]. apply (RK _ Hx).
   - intros l. apply rk_bound.
   - (* universe *)
     intros t l [Lt OV] [k [PK [BL _]]]. rewrite (gi_len _ _ G) in Lt.
@@ -338,7 +338,7 @@ Proof.
     destruct (th_cur (get_thr (b_thr s) t)) as [[o p]|]; [|discriminate].
     destruct R as [_ [_ [_ W]]]. pose proof (wp_nextop (blk o) p H K _ _ _ W) as N.
     destruct (nextop p) as [v| | | |op]; try discriminate. inversion PK; subst op.
-    exact (proj1 (BR _ _ _ (N BL))).
+    exact (proj1 (BR _ _ _ (proj1 N BL))).
   - (* holders are live threads *)
     intros u l [Hl HH]. unfold live. rewrite (gi_len _ _ G).
     destruct (Nat.lt_ge_cases u n) as [Lu|Gu].
@@ -408,6 +408,28 @@ Proof.
     + apply hcount_in in Hx. rewrite A2 in Hx. assert (M : memb t (readers (w_raw (b_w s) l)) = true) by (apply cnt_memb; exact Hx).
       rewrite M. apply orb_true_r.
   - destruct A as [A1 _]. apply hcount_in in D. rewrite A1 in D. destruct (writer_is (w_raw (b_w s) l) t); [reflexivity|lia].
+Qed.
+
+(* a lock is released only by a thread that holds it, in the mode it holds it *)
+Lemma GI_release n s t k l : GI n s ->
+  parked (get_thr (b_thr s) t) = Some (ORaw k l) ->
+  match k with
+  | OUnlock => writer_is (w_raw (b_w s) l) t = true
+  | OUnlockSh => memb t (readers (w_raw (b_w s) l)) = true
+  | _ => True
+  end.
+Proof.
+  intros G PK. destruct (Nat.lt_ge_cases t n) as [Lt|Ge].
+  2:{ unfold get_thr in PK. rewrite nth_overflow in PK by (rewrite (gi_len _ _ G); exact Ge). discriminate. }
+  destruct (gi_thr _ _ G t Lt) as [H [K [A R]]]. unfold parked in PK.
+  destruct (th_over (get_thr (b_thr s) t)); cbn [orb] in PK; [discriminate|].
+  destruct (th_started (get_thr (b_thr s) t)); cbn [negb] in PK; [|discriminate].
+  destruct (th_cur (get_thr (b_thr s) t)) as [[o p]|]; [|discriminate].
+  destruct R as [_ [_ [_ W]]]. pose proof (wp_nextop (blk o) p H K _ _ _ W) as N.
+  destruct (nextop p) as [v| | | |op]; try discriminate. inversion PK; subst op. destruct N as [_ N].
+  destruct A as [A1 [A2 _]]. destruct k; try exact I; cbn [rop_ex] in N; apply hcount_in in N.
+  - rewrite A1 in N. destruct (writer_is (w_raw (b_w s) l) t); [reflexivity|lia].
+  - rewrite A2 in N. now apply cnt_memb.
 Qed.
 
 End Main.
@@ -688,4 +710,21 @@ Proof.
   destruct (w_raw (b_w s) l) as [wr rd] eqn:E. unfold raw_free. f_equal.
   - destruct wr as [u|]; [|reflexivity]. exfalso. apply (NH u). split; [exact Ll|]. left. unfold writer_is. rewrite E. cbn. apply Nat.eqb_refl.
   - destruct rd as [|u r]; [reflexivity|]. exfalso. apply (NH u). split; [exact Ll|]. right. rewrite E. cbn. now rewrite Nat.eqb_refl.
+Qed.
+
+(* ---------------------------------------------------------------- C05 on every schedule: releases by the holder, in its mode *)
+Theorem every_schedule_release_held b sched t k l :
+  wfB b = true ->
+  let sc := bs_sc b in
+  let s := fst (run_sched (bs_wp b) (sc_env sc) (sc_nlocks sc) (binit b) sched) in
+  parked (get_thr (b_thr s) t) = Some (ORaw k l) ->
+  match k with
+  | OUnlock => writer_is (w_raw (b_w s) l) t = true
+  | OUnlockSh => memb t (readers (w_raw (b_w s) l)) = true
+  | _ => True
+  end.
+Proof.
+  intros W sc s. eapply GI_release.
+  apply (reach_GI_dec (fun _ => rank_ok (sc_nlocks sc) (rk_of sc)) (fun _ => rank_okb (sc_nlocks sc) (rk_of sc))
+                      (fun _ H l => rank_okb_ok _ _ H l) false b sched W).
 Qed.
